@@ -30,6 +30,7 @@ fn main() {
         "c11" => vmc::props::c11(tier),
         "c13" => vmc::props::c13(tier),
         "c14" => vmc::props::c14(tier),
+        "c15" => vmc::props::c15(tier),
         "c16" => vmc::props::c16(tier),
         x if x.starts_with("dump-") => vmc::props::dump(&x[5..], tier),
         _ => usage(),
